@@ -141,6 +141,7 @@ type offer struct {
 	sigalgs   []uint16
 	hasSNI    bool
 	hasECHOut bool
+	greaseShare uint16 // the GREASE group that has a key_share entry (0 = none)
 }
 
 func offerOf(h *wire.Hello) offer {
@@ -169,6 +170,9 @@ func offerOf(h *wire.Hello) offer {
 	if e := h.Find(51); e != nil {
 		if ks, err := wire.ParseKeyShares(e.Body); err == nil {
 			for _, k := range ks {
+				if wire.IsGREASE(k.Group) {
+					o.greaseShare = k.Group
+				}
 				if !wire.IsGREASE(k.Group) {
 					o.shares = append(o.shares, k.Group)
 				}
